@@ -228,7 +228,12 @@ class HttpWebServerPlugin(HttpProtocolHandlerPlugin):
                     raise HttpProtocolException(
                         'Pipelined request is not keep-alive, will tear down request...',
                     )
+                # Bytes following this request within the same read
+                # belong to the next pipelined request.
+                remaining = self.pipeline_request.buffer
                 self.pipeline_request = None
+                if remaining is not None:
+                    self.on_client_data(remaining)
 
     def on_response_chunk(self, chunk: List[memoryview]) -> List[memoryview]:
         self._response_size += sum(len(c) for c in chunk)
